@@ -71,14 +71,26 @@ Addr addr_parse(const std::string &ip, uint16_t port) {
 int token_of_name(const dnsref::Name &n) {
   if (n.empty()) return -1;
   const std::string &l = n[0];
-  if (l.size() < 2 || (l[0] != 't' && l[0] != 'T')) return -1;
+  // style 1: the whole first label is tNNN; style 2: the first label ends in -tNNN
+  size_t start = 0;
+  if (l.size() >= 2 && (l[0] == 't' || l[0] == 'T') && isdigit((unsigned char)l[1])) start = 1;
+  else {
+    size_t p = l.rfind('-');
+    if (p == std::string::npos || p + 2 >= l.size() + 0 || (l[p + 1] != 't' && l[p + 1] != 'T')) return -1;
+    start = p + 2;
+    if (start >= l.size()) return -1;
+  }
   int v = 0;
-  for (size_t i = 1; i < l.size(); i++) { if (l[i] < '0' || l[i] > '9') return -1; v = v * 10 + (l[i] - '0'); if (v > 100000000) return -1; }
+  for (size_t i = start; i < l.size(); i++) { if (l[i] < '0' || l[i] > '9') return -1; v = v * 10 + (l[i] - '0'); if (v > 100000000) return -1; }
   return v;
 }
 std::string strip_token(const dnsref::Name &n) {
   dnsref::Name m = n;
-  if (token_of_name(n) >= 0) m.erase(m.begin());
+  if (token_of_name(n) >= 0) {
+    const std::string &l = n[0];
+    if ((l[0] == 't' || l[0] == 'T') && l.size() >= 2 && isdigit((unsigned char)l[1]) && l.find('-') == std::string::npos) m.erase(m.begin());
+    else m[0] = l.substr(0, l.rfind('-'));
+  }
   return dnsref::name_lower(dnsref::name_to_text(m));
 }
 
